@@ -11,7 +11,7 @@ from ..skelrules import check_skeleton
 from . import c01
 
 PROP = "C03"
-FLOORS = {"C03-B6": 2, "C03-B1": 3, "C03-B2": 5, "C03-B3": 2, "C03-B4": 6, "C03-B5": 3}
+FLOORS = {"C03-I1": 6, "C03-B6": 2, "C03-B1": 3, "C03-B2": 5, "C03-B3": 2, "C03-B4": 6, "C03-B5": 3}
 
 EXPLANATION = (
     "Decided by construction: (a) bivincular, vincular and covincular patterns behave as the mesh patterns given by their adjacency requirements – they "
@@ -34,6 +34,10 @@ def run(ctx: Ctx) -> None:
     ctx.run(rule_b4, ctx)
     ctx.run(rule_b5, ctx)
     ctx.run(rule_b6, ctx)
+    from .. import oneshot
+
+    # adjacency requirements / shadings may be given as any iterable (the library's own random() passes generators)
+    ctx.run(oneshot.report, ctx, "C03-I1", ["permuta.patterns.bivincularpatt", "permuta.patterns.meshpatt"], ["BivincularPatt._to_shading", "BivincularPatt.__init__", "MeshPatt.__init__"])
 
 
 def rule_b6(ctx: Ctx) -> None:
@@ -297,6 +301,8 @@ def _variants():
         V("reader-roles-swapped", replace_expr(BV, "BivincularPatt.get_adjacent_requirements", "(x, i) in self.shading", "(i, x) in self.shading"), "fire", "C03-B3"),
         V("dispatch-swapped", [replace_expr(MP, "MeshPatt.occurrences_in", "self._occurrences_in_perm(patt)", "self._occurrences_in_mesh(patt)"), replace_expr(MP, "MeshPatt.occurrences_in", "self._occurrences_in_mesh(patt)", "self._occurrences_in_perm(patt)", which=2)], "fire", "C03-B4"),
         V("perm-contains-any-to-all", replace_expr(PE, "Perm.contains", "all((self._contains(patt) for patt in patts))", "any((self._contains(patt) for patt in patts))"), "fire", "C03-B5"),
+        V("to-shading-assert-consumes", [insert_stmt(BV, "BivincularPatt._to_shading", "for idx in adjacent_indices: ...", "assert all(0 <= idx <= n for idx in adjacent_indices)", "before")], "fire", "C03-I1"),
+        V("mesh-init-validates-then-stores", replace_stmt(MP, "MeshPatt.__init__", "self.shading = shading if isinstance(shading, frozenset) else frozenset(shading)", "assert all(len(c) == 2 for c in shading)\nself.shading = shading if isinstance(shading, frozenset) else frozenset(shading)"), "fire", "C03-I1"),
         V("mesh-cell-nonstrict", replace_expr(MP, "MeshPatt._occurrences_in_perm", "candidate_element < element", "candidate_element <= element"), "fire", "C03-B6"),
         V("mesh-cell-swapped", replace_expr(MP, "MeshPatt._occurrences_in_perm", "(x, y) in self.shading", "(y, x) in self.shading"), "fire", "C03-B6"),
         # silent
